@@ -13,6 +13,7 @@ import Model.Parse
 import Model.Macat
 import Model.Opt
 import Model.Core
+import Model.Wait
 import Generated.Facts
 import Driver.Machines
 open Model
@@ -139,6 +140,37 @@ def checkPool (sz : Nat) (obs : String) : Bool × String :=
       "len=0 hlen=0 cap∈" ++ toString allowed)
   | _ => (false, "len hlen cap")
 
+/-- w.run <pkg> <recv> <fn> <expire> <be> <fnp> <ready> <peers> <giveUp> <t:ev,…|-> => <out> <ms> | blocked :
+    the site's parameters come from the source (Generated.waitSites); the observation must be admitted by the model -/
+def checkWait (a : List String) (obs : String) : Option (Bool × String × String) :=
+  match a with
+  | [pkg, recv, fn, expire, be, fnp, ready, peers, giveUp, evs] =>
+    match Generated.waitSites.find? (fun w => w.pkg == pkg && w.recv == recv && w.fn == fn) with
+    | none => none
+    | some w =>
+      let site := Wait.siteOf w
+      let cfg : Wait.Cfg := { expire := natArg expire, bestEffort := be == "1", failNoPeers := fnp == "1" }
+      let st : Wait.Start := { ready := ready == "1", peers := peers == "1" }
+      let evl : List (Nat × Wait.WEv) := if evs == "-" then [] else
+        (evs.splitOn ",").filterMap (fun x => match x.splitOn ":" with
+          | [t, e] => (Wait.wevOf e).map (fun ev => (natArg t, ev))
+          | _ => none)
+      let r := Wait.run site cfg st evl
+      let o : Option (Option (Wait.Out × Nat)) := match obs.splitOn " " with
+        | ["blocked"] => some none
+        | [x, t] => (Wait.outOf x).map (fun y => some (y, natArg t))
+        | _ => none
+      let exp := match r with
+        | none => "blocked"
+        | some (x, t) => s!"{reprStr x} at {t}..{t + Wait.slack}"
+      let br := match r with
+        | none => "blocked"
+        | some (x, t) => reprStr x ++ (if t == 0 then "-immediate" else "-waited") ++ (if site.rearm then "-rearm" else "")
+      match o with
+      | none => some (false, exp, br)
+      | some ob => some (Wait.admits r ob (natArg giveUp), exp, br)
+  | _ => none
+
 structure St where
   lines : Nat := 0
   mismatches : Nat := 0
@@ -168,6 +200,14 @@ def processLine (st : St) (line : String) : St × Option String :=
       if ok then (st, none) else
         ({ st with mismatches := st.mismatches + 1 },
           some s!"MISMATCH {st.lines} {lhs} expected={exp} observed={obs}")
+    else if tag == "w.run" then
+      match checkWait args obs with
+      | some (ok, exp, br) =>
+        let st := { st with counts := bump (bump st.counts tag) (tag ++ ":" ++ br) }
+        if ok then (st, none) else
+          ({ st with mismatches := st.mismatches + 1 },
+            some s!"MISMATCH {st.lines} {lhs} expected={exp} observed={obs}")
+      | none => ({ st with mismatches := st.mismatches + 1 }, some s!"MISMATCH {st.lines} {lhs} expected=<unknown site or bad arity> observed={obs}")
     else
     match evalStateless tag args with
     | some (exp, br) =>
